@@ -17,6 +17,17 @@ theorem tokenfee_translated_pinned : Irismod.Gen.PureTokenFee.translated =
      "MintToken_guard_2(token_Mintable)",
      "MintToken_guard_3(coinMinted,mintableAmt)",
      "MintToken_cond_4(read_recipient_Empty)",
+     "EditToken_issuedAmt_1(read_k_getTokenSupply_ctx_token_MinUnit)",
+     "EditToken_precision_1(token_Scale)",
+     "EditToken_token_MaxSupply_1(maxSupply)",
+     "EditToken_token_Name_1(name)",
+     "EditToken_token_Mintable_1(read_mintable_ToBool)",
+     "EditToken_guard_1(read_owner_String,token_Owner)",
+     "EditToken_cond_2(maxSupply)",
+     "EditToken_guard_3(maxSupply,precision,issuedAmt)",
+     "EditToken_cond_4(name)",
+     "EditToken_cond_5(exist)",
+     "EditToken_cond_6(mintable)",
      "GetTokenMintFee_mintFee_1(fee,params_MintTokenFeeRatio)",
      "feeHandler_communityTaxCoin_1(fee,tokenTaxRate)",
      "calcFeeByBase_actualFee_1(baseFee,feeFactor)"] := rfl
@@ -69,5 +80,23 @@ theorem MintToken_cap_eq_model (maxSupply scale supply amount : Nat) (d : String
     have : (maxSupply * Irismod.Token.pow10 scale - supply < amount) ↔ (maxSupply * Irismod.Token.pow10 scale < supply + amount) := by omega
     simp only [this]
   · simp only [hp, if_false, obind_none]
+
+/-- `EditToken`: a new maximum (only when `maxSupply > 0`) is refused exactly when `maxSupply · 10^scale` is below the
+circulating amount in min units — the comparison of the model's edit handler (C09 `MaxNeverBelowCirculating`, after fix
+9de2d2d) — whatever the mintable flag is -/
+theorem EditToken_cap_eq_model (maxSupply scale supply : Nat)
+    (hcap : maxSupply * Irismod.Token.pow10 scale < pow2_256) (hp : Irismod.Token.pow10 scale < pow2_256) :
+    (Irismod.Gen.PureTokenFee.EditToken_precision_1 scale >>= fun p =>
+      Irismod.Gen.PureTokenFee.EditToken_guard_3 maxSupply p supply) =
+      some (decide (maxSupply * Irismod.Token.pow10 scale < supply)) ∧
+    Irismod.Gen.PureTokenFee.EditToken_cond_2 maxSupply = some (decide (0 < maxSupply)) ∧
+    Irismod.Gen.PureTokenFee.EditToken_token_MaxSupply_1 maxSupply = some maxSupply := by
+  refine ⟨?_, rfl, rfl⟩
+  unfold Irismod.Gen.PureTokenFee.EditToken_precision_1 Irismod.Gen.PureTokenFee.EditToken_guard_3
+    NewIntWithDecimal NewIntFromUint64
+  have e : (1 : Int) * (((10 ^ ((scale : Int)).toNat : Nat)) : Int) = ((Irismod.Token.pow10 scale : Nat) : Int) := by
+    simp [Irismod.Token.pow10]
+  rw [e, chkInt_natCast]
+  simp only [hp, if_true, obind_some, Int_Mul_nat, hcap, Int_LT, Int.ofNat_lt]
 
 end Irismod.Props.Tie
